@@ -183,7 +183,8 @@ def write_replay(mod, tier, found, base_seed):
     if not reproduced:
         values = found['tape']
     os.makedirs(os.path.join(VERIF, 'replays'), exist_ok=True)
-    path = os.path.join(VERIF, 'replays', '%s-%d.json' % (mod.PROP, found['seed']))
+    import hashlib
+    path = os.path.join(VERIF, 'replays', '%s-%d-%s.json' % (mod.PROP, found['seed'], hashlib.sha256(sig.encode()).hexdigest()[:6]))
     with open(path, 'w') as f:
         json.dump({'property': mod.PROP, 'oracle': v['oracle'], 'signature': sig, 'engine': mod.META.get('engine'),
                    'tier': tier, 'seed': found['seed'], 'base_seed': base_seed, 'config': config, 'tape': values,
